@@ -130,6 +130,7 @@ func c11Case(w *core.Worker, i int) {
 	}
 	d, run := runKeep(p.Text(), nil)
 	if run.res.Code != 0 && !strings.Contains(run.res.Stderr, "failed to commit") {
+		judge(d, run, "none (the procedure ended in an error of its own)", nil)
 		w.Inconclusive("generated procedure fails by itself: " + truncateStr(run.res.Stderr, 200))
 		return
 	}
